@@ -547,3 +547,79 @@ func ruleShortFileIsTruncation(r *Report) {
 		r.OK(rule, rule+"/recordio.FileReader.ReadNext", root.Pos(), "the sequential read path does not compare offsets with the file size: a short file surfaces as the EOF of the read itself (see torn-record-is-not-eof)")
 	}
 }
+
+// zeroMappedSum recognises the index' "0 means nothing to verify" mapping applied to a CRC: the call of the shared helper
+// nonZeroChecksum(sum, value), or its inline form `if sum == 0 && len(value) > 0 { sum = 1 }` (a phi of the sum and a
+// non-zero constant, the constant chosen behind the true edge of `sum == 0`, the raw sum only over the false edges of
+// `sum == 0` / `len(value) > 0`). It returns the raw sum and the value whose length is tested.
+func zeroMappedSum(v ssa.Value) (sum ssa.Value, value ssa.Value, ok bool) {
+	if hc, isC := v.(*ssa.Call); isC && CalleeKey(hc) == "sstables.nonZeroChecksum" && len(hc.Call.Args) == 2 {
+		return hc.Call.Args[0], hc.Call.Args[1], true
+	}
+	ph, isPhi := v.(*ssa.Phi)
+	if !isPhi {
+		return nil, nil, false
+	}
+	for _, e := range ph.Edges {
+		if k, isK := constInt(e); isK {
+			if k == 0 {
+				return nil, nil, false
+			}
+			continue
+		}
+		if sum != nil && sum != e {
+			return nil, nil, false
+		}
+		sum = e
+	}
+	if sum == nil {
+		return nil, nil, false
+	}
+	join := ph.Block()
+	sawConst := false
+	for i, e := range ph.Edges {
+		pred := join.Preds[i]
+		if _, isK := constInt(e); isK {
+			// reached only through the true edge of `sum == 0`
+			guarded := false
+			for _, b := range liveBlocks(join.Parent()) {
+				for _, f := range ifCmpForms(b) {
+					if z, isZ := constInt(f.Y); isZ && z == 0 && f.Op == token.EQL && f.X == sum && f.T != join && dominates(f.T, pred) {
+						guarded = true
+					}
+				}
+			}
+			if !guarded {
+				return nil, nil, false
+			}
+			sawConst = true
+			continue
+		}
+		// the raw sum: over the false edge of `sum == 0` or of `len(value) > 0`
+		okEdge := false
+		for _, f := range ifCmpForms(pred) {
+			z, isZ := constInt(f.Y)
+			if !isZ || z != 0 || f.F != join {
+				continue
+			}
+			if f.Op == token.EQL && f.X == sum {
+				okEdge = true
+			}
+			if f.Op == token.GTR || f.Op == token.NEQ {
+				if c, isC := stripConvert(f.X).(*ssa.Call); isC {
+					if bi, isB := c.Call.Value.(*ssa.Builtin); isB && bi.Name() == "len" {
+						okEdge = true
+						value = c.Call.Args[0]
+					}
+				}
+			}
+		}
+		if !okEdge {
+			return nil, nil, false
+		}
+	}
+	if !sawConst || value == nil {
+		return nil, nil, false
+	}
+	return sum, value, true
+}
